@@ -19,7 +19,9 @@ Start == atoi(IOEnv.START)
 VARIABLE l
 vars == <<l>>
 
-Problems(ev) == Judge(ev, ev)
+\* family R: the same models with their integer variables declared as bounded Reals (Judge!JudgeReal)
+RealDom(ev) == "realdom" \in DOMAIN ev /\ ev.realdom
+Problems(ev) == IF RealDom(ev) THEN JudgeReal(ev, ev) ELSE Judge(ev, ev)
 
 \* the operand-matrix family contains products and quotients of variables and divisions by zero: the
 \* compiler rejects those (not linear); such an event says nothing about answers and is only counted
@@ -27,6 +29,7 @@ NotLinear(ev) == "may_reject" \in DOMAIN ev /\ ev.out = "linearization_error"
 Check(ev) ==
    LET pb == IF NotLinear(ev) THEN {} ELSE Problems(ev) IN
    IF NotLinear(ev) THEN PrintT(<<"STAT", ev.id, "not-linear", 0, 0>>)
+   ELSE IF pb = {} /\ RealDom(ev) THEN PrintT(<<"STAT", ev.id, ev.out, Cardinality(GridEnvs(ev)), Cardinality({env \in GridEnvs(ev) : Sat(ev, env)})>>)
    ELSE IF pb = {} THEN PrintT(<<"STAT", ev.id, ev.out, Cardinality(Envs(ev)), Cardinality({env \in Envs(ev) : Sat(ev, env)})>>)
    ELSE PrintT(<<"REJECT", "C03", ev.id, CHOOSE x \in pb : TRUE, ToJson(pb)>>)
 
